@@ -96,14 +96,61 @@ def harness(args, timeout=1800, ok_codes=(0,), env=None):
     e = dict(os.environ)
     if env:
         e.update(env)
+    args = [str(a) for a in args]
+    if args and args[0] == "exec":
+        return _harness_exec(args, timeout, e)
     try:
-        p = subprocess.run([harness_bin()] + [str(a) for a in args], stdout=subprocess.PIPE,
+        p = subprocess.run([harness_bin()] + args, stdout=subprocess.PIPE,
                            stderr=subprocess.PIPE, text=True, timeout=timeout, env=e)
     except subprocess.TimeoutExpired:
         raise ToolError("harness timed out: %s" % (args,))
     if p.returncode not in ok_codes:
         raise ToolError("harness %s exited with %d\n%s\n%s" % (args, p.returncode, p.stdout[-2000:], p.stderr[-2000:]))
     return p
+
+
+def _harness_exec(args, timeout, e):
+    """exec <component> <cases> <obs> [timeout_ms]: the harness appends the observations case by case.  Exit status 1
+    is the library's own process-exiting panic hook (Pipe::new installs it) firing inside the code under test: that is
+    data, not a tool failure - the case in flight is recorded as `process_exit` and the run resumes behind it."""
+    comp, cases_path, obs_path = args[1], args[2], args[3]
+    to = args[4] if len(args) > 4 else "5000"
+    first, exits = 0, 0
+    ncases = len(read_ndjson(cases_path))
+    while True:
+        try:
+            p = subprocess.run([harness_bin(), "exec", comp, cases_path, obs_path, to, str(first)], stdout=subprocess.PIPE,
+                               stderr=subprocess.PIPE, text=True, timeout=timeout, env=e)
+        except subprocess.TimeoutExpired:
+            raise ToolError("harness timed out: %s" % (args,))
+        if p.returncode == 0:
+            return p
+        if p.returncode != 1:
+            raise ToolError("harness %s exited with %d\n%s\n%s" % (args, p.returncode, p.stdout[-2000:], p.stderr[-2000:]))
+        try:
+            with open(obs_path + ".done") as f:
+                done = int(f.read().strip() or 0)
+        except (OSError, ValueError):
+            raise ToolError("harness %s exited with 1 before it started a case\n%s" % (args, p.stderr[-2000:]))
+        if done >= ncases:
+            return p
+        cases = read_ndjson(cases_path)
+        exits += 1
+        # drop a torn last line, then record the case that ended the process
+        with open(obs_path, "rb") as f:
+            data = f.read()
+        if data and not data.endswith(b"\n"):
+            data = data[:data.rfind(b"\n") + 1]
+        rest = [{"st": "process_exit", "case": cases[done]}]
+        if exits >= 6:
+            rest += [{"st": "notrun", "case": c} for c in cases[done + 1:]]
+        with open(obs_path, "wb") as f:
+            f.write(data)
+            for r in rest:
+                f.write((json.dumps(r, ensure_ascii=False) + "\n").encode())
+        if exits >= 6 or done + 1 >= ncases:
+            return p
+        first = done + 1
 
 
 def read_ndjson(path):
